@@ -220,6 +220,15 @@ def c14_5(ctx):
         raise AnalysisError("pbkdf2: block function __f not found")
     ctx.note_fn(mod, fn)
     out = []
+    # recognised wrong form (decided before the shape of the loop is looked at): a block converted back from an integer
+    # with a width computed from the value loses its leading zero bytes
+    for f2 in [fn] + [f_ for qn, f_ in mod.functions.items() if qn in ("binxor",)]:
+        for c in ast.walk(f2):
+            if isinstance(c, ast.Call) and call_name(c) in ("to_bytes", "int_to_big_endian") and c.args:
+                w = c.args[0] if call_name(c) == "to_bytes" else (c.args[1] if len(c.args) > 1 else None)
+                if w is not None and any(isinstance(x, ast.Attribute) and x.attr == "bit_length" for x in ast.walk(w)):
+                    return [ctx.bad("pbkdf2:PBKDF2.%s" % f2.name, "a derived block is converted back to bytes with the width `%s` computed from its value: a block whose first byte is 00 "
+                                    "(1 in 256) comes back short and every later byte of the seed is shifted" % ast.unparse(w), c, mod, key="chain")]
     loops = [st for st in ast.walk(fn) if isinstance(st, ast.For)]
     first = [st for st in fn.body if isinstance(st, ast.Assign) and isinstance(st.value, ast.Call) and "prf" in ast.unparse(st.value.func)]
     if len(loops) != 1 or not first:
